@@ -20,5 +20,6 @@ theorem shutdown_releases_all : type_of% @Cjet.Props.Startup.shutdown_releases_a
 theorem shutdown_order : type_of% @Cjet.Props.Startup.shutdown_order := @Cjet.Props.Startup.shutdown_order
 theorem unix_path_unlinked : type_of% @Cjet.Props.Startup.unix_path_unlinked := @Cjet.Props.Startup.unix_path_unlinked
 theorem error_reported : type_of% @Cjet.Props.Startup.error_reported := @Cjet.Props.Startup.error_reported
+theorem goto_ladders_audit : type_of% @Cjet.Props.Startup.goto_ladders_audit := @Cjet.Props.Startup.goto_ladders_audit
 
 end Cjet.Props.STARTUP_DEV
